@@ -326,7 +326,60 @@ class Model(object):
                                 reg[a.value] = (m, f)
             self._registry = reg
             self.registry_duplicates = dup
+            self.registry_values = {}
+            self._dynamic_registrations(reg)
         return self._registry
+
+    def _dynamic_registrations(self, reg):
+        """Registrations made by calling the decorator at import time (``f = d.register_for('A')(make(...))``, also inside a
+        module-level loop over a table): the module-level statements that do so are abstractly executed with the registration
+        summarised; the registered function *values* (closures included) are kept in ``registry_values``."""
+        stmts = []
+        for m in self.modules.values():
+            for st in m.tree.body:
+                if isinstance(st, (ast.FunctionDef, ast.ClassDef, ast.Import, ast.ImportFrom)):
+                    continue
+                if any(isinstance(x, ast.Attribute) and x.attr == 'register_for' for x in ast.walk(st)):
+                    stmts.append((m, st))
+        if not stmts:
+            return
+        try:
+            from .absint import Interp, Frame, State, Builtin, Func, Const, _Signal, Unmodelled
+        except Exception:
+            return
+        keys = {}
+        for m in self.modules.values():
+            for c in m.classes.values():
+                for n in c.body:
+                    if isinstance(n, ast.FunctionDef) and n.name == 'register_for':
+                        keys[(m.name, '%s.%s' % (c.name, n.name))] = True
+        found = []
+
+        def summary(interp, args, kwargs):
+            names = [a.value for a in args[1:] if isinstance(a, Const) and isinstance(a.value, str)]
+            nm = 'hx:register:%d' % len(interp.extern)
+
+            def reg_(it, a, kw, names=names):
+                found.append((names, a[0]))
+                return a[0]
+            interp.extern[nm] = reg_
+            return Builtin(nm)
+        it = Interp(self, opaque=dict((k_, summary) for k_ in keys))
+        for m, st in stmts:
+            it.state, it.depth, it._decisions, it._dpos = State(), 0, [], 0
+            try:
+                it.block([st], Frame({}, None, m))
+            except (_Signal, Unmodelled, AnalysisError, RecursionError):
+                continue
+            except Exception:
+                continue
+        for names, fv in found:
+            if not isinstance(fv, Func) or not isinstance(fv.node, (ast.FunctionDef, ast.Lambda)):
+                continue
+            for nm_ in names:
+                if nm_ not in reg:
+                    reg[nm_] = (fv.module, fv.node)
+                    self.registry_values[nm_] = fv
 
     def registered(self, excel_name):
         r = self.registry.get(excel_name)
